@@ -26,7 +26,7 @@ if [ -x "checks/$lc/prebuild.sh" ]; then VERIF_OVERLAY="$scratch/overlay.json" "
 go build -tags verif -overlay "$scratch/overlay.json" -o "$scratch/bin" "./checks/$lc" || { echo "MUTANT DOES NOT COMPILE"; rm -rf "$scratch"; exit 2; }
 VERIF_OUT="$scratch" VERIF_TIER="$tier" "$scratch/bin" -tier "$tier" > "$scratch/out" 2> "$scratch/err"
 rc=$?
-grep -E "^VIOLATION|^KNOWN|^  key=|^  what=" "$scratch/out" | head -12
+grep -E "^VIOLATION|^KNOWN|^  key=|^  what=" "$scratch/out" | head -${MUT_HEAD:-12}
 tail -1 "$scratch/out"
 echo "check exit status: $rc"
 if [ "${SKIP_SUITE:-0}" != 1 ]; then
